@@ -26,12 +26,9 @@ def snap_diff(pre, post):
 
 
 def df_blocked(c, op, pre):
-    """an untracked worktree path is a directory where the target has a file, or a file where the target has a directory"""
+    """a worktree path is a directory where the target has a file, or a file where the target has a directory"""
     t = P.tree(c, P.target_commit(c, op, pre)) or {}
-    idx = P.fmap(pre["index"])
     for p in P.fmap(pre["wt"]):
-        if p in idx:
-            continue
         for q in t:
             if p.startswith(q + "/") or q.startswith(p + "/"):
                 return True
@@ -41,7 +38,7 @@ def df_blocked(c, op, pre):
 class Main(P.PorcelainSuite):
     name = "main"
     quick_n = 150
-    thorough_n = 2500
+    thorough_n = 1000
     buckets = [(5, "unstaged"), (4, "errors"), (3, "keep"), (2, "random"), (1, "staged"), (1, "df")]
     weights = {"force": 1, "plain": 6, "ckeep": 1, "hard": 1, "merge": 4, "keep": 3, "mixed": 1, "soft": 1}
 
@@ -75,9 +72,8 @@ class Main(P.PorcelainSuite):
                     cls = "checkout-head-before-unstaged-check"
                 elif op["op"] == "checkout" and op.get("create") and st["res"] == "object_not_found" and set(d) <= {"refs", "raw"}:
                     cls = "checkout-create-before-resolve"
-                elif st["res"] == "other" and ((op["op"] == "checkout" and op.get("force")) or (op["op"] == "reset" and op["mode"] == "hard")) \
-                        and df_blocked(c, op, pre):
-                    cls = "forced-op-partial-on-untracked-df-conflict"
+                elif st["res"] == "other" and df_blocked(c, op, pre):
+                    cls = "partial-failure-on-df-conflict"
                 fails[c["id"]] = "%s|op %d %s refused (%s) but %s changed: head %s -> %s, refs %s -> %s" % (
                     cls, k, op, st["res"], d, pre["head"], st["snap"]["head"], pre["refs"], st["snap"]["refs"])
                 break
